@@ -1,13 +1,205 @@
-"""C50 -- Filesystem lock is mutually exclusive even when breaking stale locks: bounded stand-in (contracts/parts/C50_bounded.py)."""
-from contracts._parts import bounded, EXPLORATION_NOTE
+"""C50 -- Filesystem lock is mutually exclusive even when breaking stale locks.
 
-CONTRACTS = []
+Deductive (rely/guarantee, one process against an arbitrary environment): FilesystemLock.lock and unlock are executed
+symbolically with symlink / readlink / kill / rmlink as environment call-outs that may succeed or fail with any errno --
+other processes may do anything between two calls.  Proved for lock(): it returns True only immediately after its own
+symlink(str(own pid), name) succeeded (and records locked = True); it removes the link only after, in the same retry, it
+read an owner pid from the link and kill(that pid, 0) reported ESRCH; it returns False only after kill found the recorded
+owner alive; the retry loop is re-entered only after ENOENT or a successful stale-link removal.  Proved for unlock(): the
+link is removed only when it names this process, otherwise ValueError and nothing is touched.
+What this cannot give -- the atomicity of "check staleness, then remove" across processes -- is the known finding of the
+bounded part (two breakers race); liveness is out of reach of contracts.
+Bounded (contracts/parts/C50_bounded.py): every interleaving of 2-4 simulated processes on a ghost link.
+"""
+import errno
+
+import z3
+
+from pyvc.api import *
+from pyvc import core
+from contracts._parts import bounded
+from twisted.python import lockfile
+
+import os
+
+
+def mypid():
+    """the pid of the process running the check (constant during one symbolic run; a fork between constructing the lock
+    and using it is outside this model -- the bounded part's seeded change C50-1 lives there)"""
+    return os.getpid()
+
+
+PIDSTR = "<pid read from the link>"
+NAME = "/ghost/lock"
+
+
+def _choose(tag, options):
+    """environment choice among concrete options (one fork per option)"""
+    c = ctx()
+    for o in options[:-1]:
+        if c.decide(z3.Bool(c.fresh_name("%s_%s" % (tag, o)))):
+            return o
+    return options[-1]
+
+
+def env_symlink(I, value, name):
+    c, g = ctx(), ctx().ghost
+    g.update(read=False, esrch=False, alive=False, sym_ok=False)  # a new retry begins
+    how = _choose("symlink", ["ok", "EEXIST", "EPERM"])
+    c.emit("symlink", None, (value, name, how))
+    if how == "ok":
+        g["sym_ok"] = True
+        return None
+    raise OSError(getattr(errno, how), how)
+
+
+def env_readlink(I, name):
+    c, g = ctx(), ctx().ghost
+    how = _choose("readlink", ["ok", "ENOENT", "EPERM"])
+    c.emit("readlink", None, (name, how))
+    if how == "ok":
+        g["read"] = True
+        return PIDSTR
+    raise OSError(getattr(errno, how), how)
+
+
+def env_kill(I, pid, sig):
+    c, g = ctx(), ctx().ghost
+    how = _choose("kill", ["alive", "ESRCH", "EPERM"])
+    c.emit("kill", None, (pid, sig, how))
+    same = veq(pid, g["owner"])
+    if how == "alive":
+        g["alive"] = bool(same) and g["read"]
+        return None
+    if how == "ESRCH":
+        g["esrch"] = bool(same) and g["read"]
+    raise OSError(getattr(errno, how), how)
+
+
+def env_rmlink(I, name):
+    c, g = ctx(), ctx().ghost
+    ok = g["esrch"] if g["mode"] == "lock" else g["mine"]
+    if c.concrete:
+        g.setdefault("bad", []).append("rmlink") if not ok else None
+    else:
+        c.oblige("%s/callout/link-removed-only-when-allowed" % g["$contract"].name, ok, "callout")
+    how = _choose("rmlink", ["ok", "ENOENT", "EPERM"])
+    c.emit("rmlink", None, (name, how))
+    if how == "ok":
+        return None
+    raise OSError(getattr(errno, how), how)
+
+
+def env_int(I, x=0, *a):
+    if x is PIDSTR or x == PIDSTR:
+        return ctx().ghost["owner"]
+    return NotImplemented
+
+
+CALLS = {"twisted.python.lockfile.symlink": env_symlink, "symlink": env_symlink, "posix.symlink": env_symlink,
+         "readlink": env_readlink, "posix.readlink": env_readlink,
+         "kill": env_kill, "posix.kill": env_kill,
+         "rmlink": env_rmlink, "posix.remove": env_rmlink, "posix.unlink": env_rmlink, "remove": env_rmlink, "unlink": env_rmlink,
+         "posix.getpid": lambda I: mypid(), "getpid": lambda I: mypid(),
+         "builtins.int": env_int, "int": env_int}
+
+
+def events(S, name, how=None):
+    return [e for e in S.trace if e.name == name and (how is None or e.args[-1] == how)]
+
+
+class Lock(Contract):
+    prop = "C50"
+    module = "twisted.python.lockfile"
+    function = "FilesystemLock.lock"
+    differential = False
+    calls = CALLS
+    inputs = dict(owner=Int(lo=1, small=[77, 4242]))
+    # self.locked / self.clean are assigned only on the path that returns True (never on a path that loops again)
+    loops = {"FilesystemLock.lock#0": LoopSpec(inv=lambda v: True, types={"clean": lambda nm: core.fresh_bool(nm)},
+                                               frozen=("self.locked", "self.clean"))}
+    trusted = ["symlink / readlink / kill / rmlink as an arbitrary environment (any outcome, any errno); POSIX platform",
+               "the pid text read from the link parses to some integer (int() contract)"]
+
+    def setup(self, i):
+        # built by the real constructor (whatever it chooses to remember), then the documented state
+        lk = self.make(lockfile.FilesystemLock, **dict(vars(lockfile.FilesystemLock(NAME)), locked=False, clean=None))
+        return dict(self=lk, args=[], objs=dict(lk=lk),
+                    ghost=dict(owner=i.owner, mode="lock", read=False, esrch=False, alive=False, sym_ok=False, mine=False))
+
+    def bounded_inputs(self, tier):
+        return iter(())
+
+    raises = (OSError,)
+
+    def _acquired(S):
+        if S.exc is not None or S.result is not True:
+            return None
+        sym = events(S, "symlink")
+        last = S.trace[-1]
+        return band(len(sym) >= 1, last is sym[-1], last.args[2] == "ok", last.args[0] == str(mypid()), last.args[1] == NAME,
+                    S.new.lk.locked is True)
+
+    def _refused(S):
+        if S.exc is not None or S.result is not False:
+            return None
+        # refused only after the recorded owner was found alive, and nothing was taken or removed in that retry
+        return band(S.ghost["alive"], not S.ghost["sym_ok"], len(events(S, "rmlink")) == 0, S.new.lk.locked is False)
+
+    ensures = dict(true_only_right_after_own_symlink_succeeded=_acquired, false_only_when_the_owner_is_alive=_refused)
+    canaries = [("if e.errno == errno.ESRCH:", "if True:", "link-removed-only-when-allowed"),
+                ("self.locked = True", "self.locked = False", "true_only_right_after_own_symlink_succeeded")]
+
+
+class Unlock(Contract):
+    prop = "C50"
+    module = "twisted.python.lockfile"
+    function = "FilesystemLock.unlock"
+    differential = False
+    calls = CALLS
+    inputs = dict(owner=Int(lo=1, small=[77, 4242]))
+    trusted = Lock.trusted
+
+    def setup(self, i):
+        lk = self.make(lockfile.FilesystemLock, **dict(vars(lockfile.FilesystemLock(NAME)), locked=True, clean=True))
+        mine = veq(i.owner, mypid())
+        return dict(self=lk, args=[], objs=dict(lk=lk),
+                    ghost=dict(owner=i.owner, mode="unlock", read=False, esrch=False, alive=False, sym_ok=False,
+                               mine=bool(mine) if not is_sym(mine) else bool(mine)))
+
+    def bounded_inputs(self, tier):
+        return iter(())
+
+    raises = (OSError, ValueError)
+
+    def _own_only(S):
+        rm = events(S, "rmlink")
+        if isinstance(S.exc, ValueError):
+            return band(len(rm) == 0, bnot(veq(S.i.owner, mypid())), S.new.lk.locked is True)
+        if S.exc is None:
+            return band(len(rm) == 1, rm[0].args[1] == "ok", veq(S.i.owner, mypid()), S.new.lk.locked is False)
+        return True
+
+    ensures = dict(removes_only_its_own_link=_own_only)
+    canaries = [("if int(pid) != os.getpid():", "if False:", "link-removed-only-when-allowed")]
+
+
+CONTRACTS = [Lock, Unlock]
 BOUNDED = bounded("C50")
 _SCOPE = ("the real FilesystemLock.lock / unlock for 2-4 simulated processes with symlink / readlink / rmlink / kill / getpid intercepted, each call-out one atomic step on a ghost world (one link, live pids) holding only the POSIX rules: every interleaving (breadth-first with memoisation) of all script pairs / triples over lock, unlock, die in free / stale / held worlds, and every complete schedule of 2 processes; oracle: at most one live holder, a holder's unlock succeeds and removes its link, a free or stale lock is acquirable by a process running alone, calls terminate")
-NOTES = dict(explanation=_SCOPE, not_covered=["deductive contracts on the anchored functions (not built)"])
+NOTES = dict(explanation="lock / unlock proved against an arbitrary environment (per-call guarantees); interleavings bounded: " + _SCOPE,
+             not_covered=["atomicity of the stale-lock break across processes (the known finding) and liveness: no contract "
+                          "within reach; bounded interleavings only", "Windows branches"])
 MANIFEST = dict(
-    category="exploration",
-    text="Bounded stand-in only, on the real code: " + _SCOPE + ".",
-    note=EXPLORATION_NOTE,
-    technique="bounded exhaustive evaluation of an executable contract on the real code (stand-in; not proved)",
+    category="proof",
+    text="FilesystemLock.lock and unlock are proved against an arbitrary environment (every filesystem / kill call may succeed or "
+         "fail with any errno, other processes may act between calls): lock() returns True only immediately after its own "
+         "symlink(str(pid), name) succeeded and sets locked; it removes the link only after, in the same retry, reading an "
+         "owner pid and kill(pid, 0) reporting ESRCH; it returns False only after the recorded owner was found alive; "
+         "unlock() removes the link only when it names this process, otherwise ValueError and nothing is touched.  Mutual "
+         "exclusion across processes depends on the interleaving of these steps and is exercised in the bounded tier only "
+         "(where the stale-break race is the known finding): " + _SCOPE + ".",
+    note="Trusted: pyvc, SMT solvers, the environment model of symlink / readlink / kill / rmlink (any outcome), int() contract, "
+         "POSIX platform.  Cross-process interleavings: bounded, never counted as proved.",
+    technique="contract-based deductive verification (rely/guarantee: symbolic execution against an arbitrary environment, call-out obligations, loop cut) + bounded exhaustive interleavings",
 )
